@@ -183,6 +183,43 @@ pub fn check(tier: &str, rep: &mut Report) {
         total += n;
     } )* } }
     cap!(1, 2, 3, 4, 5, 6);
+    // equality between DIFFERENT values: a == b exactly when the strings are equal (both argument orders), equal
+    // values hash alike; the value set holds every string of <= 3 bases and, around every word boundary, a pattern
+    // and the same pattern with one more trailing A (they differ in the stored length only)
+    macro_rules! eqs { ($($c:expr),*) => { $( {
+        type A = [u64; $c];
+        let maxl = Lmer::<A>::max_len();
+        let mut vals: Vec<S> = vec![];
+        for len in 0..=3usize {
+            for x in 0..count_strings(len) {
+                vals.push(nth_string(len, x));
+            }
+        }
+        for len in [30usize, 31, 32, 33, 63, 64, 65, 95, 96, 97, maxl - 1, maxl] {
+            if len <= maxl {
+                vals.push(vec![0u8; len]);
+                vals.push((0..len).map(|i| ((i * 5 + 1) % 4) as u8).collect());
+                vals.push((0..len).map(|i| if i < 3 { 1 + (i % 3) as u8 } else { 0 }).collect());
+            }
+        }
+        vals.sort();
+        vals.dedup();
+        let ls: Vec<Lmer<A>> = vals.iter().map(|v| Lmer::from_slice(v)).collect();
+        let mut n = 0u64;
+        'outer: for i in 0..vals.len() {
+            for j in 0..vals.len() {
+                n += 1;
+                let want = vals[i] == vals[j];
+                if (ls[i] == ls[j]) != want || (want && h(&ls[i]) != h(&ls[j])) {
+                    rep.violation(Violation { signature: "lmer-equality-wrong".into(), case: json!({"capacity": $c, "a": ascii(&vals[i]), "b": ascii(&vals[j])}), detail: format!("Lmer<[u64;{}]>: from_slice({}) == from_slice({}) is {}, hashes equal: {}; the strings are {}", $c, ascii(&vals[i]), ascii(&vals[j]), ls[i] == ls[j], h(&ls[i]) == h(&ls[j]), if want { "equal" } else { "different" }) });
+                    break 'outer;
+                }
+            }
+        }
+        rep.count(&format!("E1/Lmer<[u64;{}]>:value_pairs_compared", $c), n);
+        total += n;
+    } )* } }
+    eqs!(1, 2, 3, 4, 5, 6);
     rep.transitions += total;
     let bound = if quick { 4 } else { 5 };
     let mut u = 0;
@@ -214,6 +251,27 @@ pub fn replay(c: &Value) -> Vec<String> {
             _ => e2::<[u64; 6]>(6, bound, &mut rep),
         };
         return rep.violations.iter().map(|v| v.detail.clone()).collect();
+    }
+    if let (Some(a), Some(b)) = (c["a"].as_str(), c["b"].as_str()) {
+        // one pair of values: equality / hash against the strings
+        let (va, vb): (S, S) = (a.bytes().map(|x| b"ACGT".iter().position(|y| *y == x).unwrap_or(0) as u8).collect(), b.bytes().map(|x| b"ACGT".iter().position(|y| *y == x).unwrap_or(0) as u8).collect());
+        fn pair<A: Array<Item = u64> + Copy + Eq + Ord + Hash>(va: &[u8], vb: &[u8]) -> Vec<String> {
+            let (la, lb): (Lmer<A>, Lmer<A>) = (Lmer::from_slice(va), Lmer::from_slice(vb));
+            let want = va == vb;
+            if (la == lb) != want || (lb == la) != want || (want && h(&la) != h(&lb)) {
+                vec![format!("from_slice({}) == from_slice({}) is {} / {} the other way round, the strings are {}", ascii(va), ascii(vb), la == lb, lb == la, if want { "equal" } else { "different" })]
+            } else {
+                vec![]
+            }
+        }
+        return match c["capacity"].as_u64().unwrap_or(1) {
+            1 => pair::<[u64; 1]>(&va, &vb),
+            2 => pair::<[u64; 2]>(&va, &vb),
+            3 => pair::<[u64; 3]>(&va, &vb),
+            4 => pair::<[u64; 4]>(&va, &vb),
+            5 => pair::<[u64; 5]>(&va, &vb),
+            _ => pair::<[u64; 6]>(&va, &vb),
+        };
     }
     let (l, b) = (c["len"].as_u64().unwrap_or(0) as usize, c["background"].as_u64().unwrap_or(0) as u8);
     match c["capacity"].as_u64().unwrap_or(1) {
